@@ -64,14 +64,38 @@ theorem C11_strings_roundtrip_whole (seqs : List (List Char)) (t : Trace) (m : N
     (fun k hk => by rw [hcov k hk, List.range_eq_range']) hin
   exact ⟨strs, h1, by rw [h4, shiftTrace_zero]⟩
 
-/-- FASTA round trip of the whole alignment (`set_alignment` then `get_alignment`, `_` as additional gap
-character): a trace that covers every sequence completely comes back unchanged together with the sequences. -/
-theorem C11_fasta_roundtrip_cols (seqs : List (List Char)) (t : Trace)
+/-- FASTA round trip of the whole alignment (`set_alignment` then `get_alignment` with **any** set `extra` of additional gap
+characters): a trace that covers every sequence completely comes back unchanged together with the sequences, provided no
+symbol is `-` or one of the additional gap characters. -/
+theorem C11_fasta_roundtrip_cols (extra : List Char) (seqs : List (List Char)) (t : Trace)
     (hn : 2 ≤ seqs.length) (hrect : ∀ c ∈ t, c.length = seqs.length)
-    (hsym : ∀ seq ∈ seqs, ∀ c ∈ seq, c ≠ '-' ∧ c ≠ '_')
+    (hsym : ∀ seq ∈ seqs, ∀ c ∈ seq, c ≠ '-' ∧ c ∉ extra)
     (hcov : ∀ k (h : k < seqs.length), covered t k = List.range seqs[k].length) :
-    ∃ strs, gappedStrings seqs t = .ok strs ∧ fastaGet ['_'] strs = .ok (seqs, t) :=
-  fasta_roundtrip_cols seqs t hn hrect hsym hcov
+    ∃ strs, gappedStrings seqs t = .ok strs ∧ fastaGet extra strs = .ok (seqs, t) :=
+  fasta_roundtrip_cols extra seqs t hn hrect hsym hcov
+
+/-- additional gap characters: a FASTA text in which some gaps `-` are written as characters of `extra` (any number of them,
+any order — `extra` is a set here) is read exactly like the plain `-` text. -/
+theorem C11_fasta_gapchars (extra : List Char) (strs strs' : List (List Char))
+    (hclean : ∀ s ∈ strs, ∀ c ∈ s, c ∉ extra)
+    (hsub : All₂ (All₂ fun c c' => c' = c ∨ (c = '-' ∧ c' ∈ extra)) strs strs') :
+    fastaGet extra strs' = fastaGet [] strs :=
+  fastaGet_gapchars extra strs strs' hclean hsub
+
+/-- `get_symbols`: row `k` is row `k` of `get_codes` decoded entry by entry through the alphabet of sequence `k` (its own,
+not the first sequence's): a gap stays a gap, a code `x` becomes `alphs[k][x]`; a code outside that alphabet is an error. -/
+theorem C11_symbols_rows (alphs : List (List Char)) (seqs : List (List Nat)) (t : Trace) (sy : List (List (Option Char)))
+    (h : getSymbols alphs seqs t = .ok sy) :
+    ∃ codes, getCodes seqs t = .ok codes ∧
+      All₂ (fun (p : List Char × List (Option Nat)) sr => All₂ (DecodesTo p.1) p.2 sr) (alphs.zip codes) sy := by
+  unfold getSymbols at h
+  split at h
+  · cases h
+  · next codes hc => exact ⟨codes, hc, decodeRows_spec alphs codes sy h⟩
+
+example : getSymbols [['A', 'C', 'G', 'T'], ['A', 'C', 'G', 'T', 'R', 'Y']] [[3, 0], [5, 4]] [[some 0, some 1], [some 1, none]]
+    = .ok [[some 'T', some 'A'], [some 'R', none]] := by decide
+example : fastaGet ['.', '_'] [['A', '.', 'C'], ['_', 'G', '-']] = fastaGet [] [['A', '-', 'C'], ['-', 'G', '-']] := by decide
 
 /-- `get_codes` as a matrix: transposed it is, column by column, the code of every sequence in that column
 (`colCodes`).  The model's codes are unbounded naturals and the gap is a separate value, so the statement is
